@@ -1,6 +1,6 @@
 (* C11: join computes the relational join with the documented aggregates. *)
 From Coq Require Import List ZArith Bool Sorted Permutation.
-From DF Require Import Base.Str Base.Lits Base.Value Proc.RowOps Proc.Fields Proc.Sort Proc.Sort_proofs Proc.Join Proc.Join_proofs Proc.JoinAgg_proofs Gen.Consts.
+From DF Require Import Base.Str Base.Lits Base.Value Proc.RowOps Proc.Fields Proc.Sort Proc.Sort_proofs Proc.Join Proc.Join_proofs Proc.JoinAgg_proofs Proc.JoinExtra_proofs Gen.Consts.
 Import ListNotations.
 Open Scope Z_scope.
 
@@ -106,6 +106,18 @@ Theorem C11_full_outer_one_row_per_unmatched_key : forall fs tkl d used ex,
   length ex = length (filter (fun ke => negb (str_in (fst ke) used)) d).
 Proof. exact unused_rows_one_per_key. Qed.
 Print Assumptions C11_full_outer_one_row_per_unmatched_key.
+
+(* ... carrying the source's key values under the target's key fields, position by position (whatever the two sides call
+   their key fields and in whatever order each side lists them), and the aggregates in the other fields *)
+Theorem C11_full_outer_key_written_back : forall fs tkl e extra kv kvs r,
+  finalise_list fs (e_fields e) = Ok extra ->
+  e_key e = Some (kv :: kvs) ->
+  create_extra fs tkl e = Ok r ->
+  NoDup tkl -> length tkl = length (kv :: kvs) ->
+  (forall i k v, nth_error tkl i = Some k -> nth_error (kv :: kvs) i = Some v -> rget r k = Some v) /\
+  (forall k, ~ In k tkl -> rget r k = rget extra k).
+Proof. exact extra_row_keys. Qed.
+Print Assumptions C11_full_outer_key_written_back.
 
 (* deduplication mode: exactly one aggregated row per distinct key (keys of the index are distinct and sorted) *)
 Theorem C11_dedup_one_row_per_key : forall fs d rows, dedup_rows fs d = Ok rows -> length rows = length d.
